@@ -77,6 +77,37 @@ def gate(rep, st):
     return ok
 
 
+SESSION_OBLIGATIONS = ('data file is created exclusively', 'a data file is created only if its final name', 'a tmp file is renamed only onto',
+                       'a write that would need a file period', 'the existing finalized file', 'such a refusal is not a fatal', 'after a refused period')
+
+REPLAY_SESSION = '''
+from vlib import build, refmodel
+import numpy as np, tempfile, os, shutil, sys, glob, hashlib
+top = tempfile.mkdtemp(); ch = os.path.join(top, 'ch'); os.makedirs(ch)
+cfg = dict(n=10, d=1, sc=3600, fc=1000, start=10**10)
+def session(start_rel, n, cont):
+    rw = refmodel.RealWriter(build, ch, cfg['n'], cfg['d'], cfg['sc'], cfg['fc'], cfg['start'], cont)
+    if not rw.obj: return 'NULL'
+    r = rw.write_blocks([start_rel], [0], (np.arange(n, dtype=np.int16) + 100).reshape(-1, 1))
+    r2 = rw.write_blocks([start_rel + 50], [0], (np.arange(5, dtype=np.int16) + 200).reshape(-1, 1))
+    rw.close(); return (r, r2)
+bad = 0
+for cont in (0, 1):
+    shutil.rmtree(ch, ignore_errors=True); os.makedirs(ch)
+    print('cont', cont, 'session 1', session(0, 25, cont))
+    h0 = {f: hashlib.md5(open(f, 'rb').read()).hexdigest() for f in glob.glob(os.path.join(ch, '*', 'rf@*.h5'))}
+    r = session(12, 10, cont)            # would need the finalized period 1 (samples 10..19)
+    print('cont', cont, 'session 2', r)
+    h1 = {f: (hashlib.md5(open(f, 'rb').read()).hexdigest() if os.path.exists(f) else None) for f in h0}
+    if h1 != h0: print('a finalized file of session 1 changed or vanished'); bad = 1
+    if r == 'NULL' or r[0] == 0: print('write into a finalized period was accepted'); bad = 1
+    if r != 'NULL' and r[1] != 0: print('writer not usable for a later free period after the refusal:', r); bad = 1
+    if glob.glob(os.path.join(ch, '*', 'tmp.*')): print('tmp file left behind'); bad = 1
+shutil.rmtree(top)
+sys.exit(1 if bad else 0)
+'''
+
+
 def report(rep, specs, results, select, sigmap=None, label='write path'):
     """fold per-configuration results into obligations of `rep`.  select(name) -> bool chooses the obligations of this property."""
     by_ob = {}
@@ -109,6 +140,10 @@ def report(rep, specs, results, select, sigmap=None, label='write path'):
         else:
             real = wrun.realise(sp, nm)
         sig = (sigmap or {}).get(nm, 'W1.' + nm[:40])
+        if nm.startswith(SESSION_OBLIGATIONS):
+            # obligations about files of an earlier session: replayed as a two-session recording on the real build
+            rep.violation(nm, sig, 'fails in "%s": %s' % (sp['name'], str(m)[:300]), replay_body=REPLAY_SESSION, bounds=sp['name'], sample={'model': str(m)[:400]})
+            continue
         if real is None:
             rep.ob(nm, 'inconclusive', detail='counterexample in "%s" under the window abstraction could not be realised with regular windows: %s' % (sp['name'], str(m)[:300]))
         else:
@@ -148,8 +183,10 @@ def fault_specs(tier, modes=MODES):
     for mname, cont, chunk in modes:
         for sched, fn in (('one call fails once', wcheck.fault_once), ('every call from a point on fails', wcheck.fault_persistent)):
             if tier == 'quick' and fn is wcheck.fault_persistent and cont: continue      # quick: persistent schedule for gapped mode only
-            add('%s: 2 calls (<=2 files each) + close; %s' % (mname, sched), cont, chunk, [call(1, 2), call(1, 2)], 10, fault=fn)
+            if tier == 'quick':
+                add('%s: 2 calls (<=2 files, then 1 file) + close; %s' % (mname, sched), cont, chunk, [call(1, 2), call(1, 1)], 10, fault=fn)
             if tier == 'thorough':
+                add('%s: 2 calls (<=2 files each) + close; %s' % (mname, sched), cont, chunk, [call(1, 2), call(1, 2)], 30, fault=fn)
                 add('%s: 3 calls (<=2 files each) + close; %s' % (mname, sched), cont, chunk, [call(1, 2), call(1, 2), call(1, 2)], 60, fault=fn)
                 if not cont: add('%s: 2 blocks then 1 block + close; %s' % (mname, sched), cont, chunk, [call(2, 2), call(1, 2)], 60, fault=fn)
     return S
